@@ -85,9 +85,10 @@ ADDENDA = {
 
 # facets added in the session of waves 10-12 (appended after ADDENDA)
 ADDENDA2 = {
-    "C10": " Operation yext: the yaml_loader list a YAMLObject class sees (YAMLObject's own included) is extended in place; the model keeps list identity and the module-level helpers must still fan out to the three documented classes only.",
-    "C11": " Step kind preempt: at the k-th line event of a call in progress the trace function runs another complete call (often a twin of the pre-empted one) and / or advances the other party's in-flight generator tasks - what a signal handler or another thread obtaining the GIL there does; both calls are compared with their isolated references.",
-    "C16": " Dump histories also contain the same value dumped under OTHER options / by another dumper class and a dump cut short by a failing write(); neighbour keys include twins under Unicode normalisation and case folding; the multi-document clause writes the same container object twice with other contents.",
+    "C03": " A RecursionError is out of scope only beyond an EXACT nesting depth of 300 (counted on the events of the iterative pure-Python parser when such an error is seen); corpus family deepnest (depth 150-298).",
+    "C10": " Operation yext: the yaml_loader list a YAMLObject class sees (YAMLObject's own included) is extended in place; the model keeps list identity and the module-level helpers must still fan out to the three documented classes only. Histories in many-prefixes mode (twelve more multi-constructor prefixes) with one load probe per registered prefix.",
+    "C11": " Step kind preempt: at the k-th line event of a call in progress the trace function runs another complete call (often a twin of the pre-empted one) and / or advances the other party's in-flight generator tasks - what a signal handler or another thread obtaining the GIL there does; both calls are compared with their isolated references. A tenth of the streams of the stream modes are long streams of records (30-150 documents / values).",
+    "C16": " Dump histories also contain the same value dumped under OTHER options / by another dumper class and a dump cut short by a failing write(); neighbour keys include twins under Unicode normalisation and case folding; the multi-document clause writes the same container object twice with other contents; in 4 % of the sorted cases the value comes after 1-100 mappings whose keys are not mutually comparable.",
     "C18": " 15 % of the streams are written in scripts of 3-4 UTF-8 bytes per character (text streams into the C input handler).",
     "C19": " Caller-owned code also covers what the python/object tags run (callable of python/object/apply, __init__ / __setstate__ of python/object(/new), __reduce_ex__); callback-fault load cases also pass the document in memory; marked YAML errors with marks among the kinds; open-ended root-scalar documents right before a document whose callback can fail.",
 
